@@ -23,6 +23,7 @@ import SwcVerif.Model.AlgoRunSort
 import SwcVerif.Model.AlgoRunSubtree
 import SwcVerif.Model.AlgoRunPopulation
 import SwcVerif.Model.AlgoRunPopFront
+import SwcVerif.Model.AlgoRunPopMap
 import SwcVerif.Model.AlgoRunNormalizer
 import SwcVerif.Model.AlgoRunBranches
 import SwcVerif.Model.AlgoRunRedirect
@@ -103,6 +104,9 @@ def dispatch (op : String) (args : List String) : String :=
   | "gpopfront" => AlgoRun.handlePopFront args
   | "gtopop" => AlgoRun.handleToPop args
   | "gfromswc" => AlgoRun.handleFromSwc args
+  | "gfindswcs" => AlgoRun.handleFindSwcs args
+  | "gpopmap" => AlgoRun.handlePopMap args
+  | "gpopfilter" => AlgoRun.handlePopFilter args
   | "gredirect" => AlgoRun.handleRedirect args
   | "gaffine" | "gpipe" => AlgoRun.handleAffine op args
   | "grod" | "ghom" | "gmview" | "gortho" => AlgoRun.handleRodrigues op args
